@@ -655,6 +655,16 @@ def obligations(tier):
                                        bounds="exon lengths %s, consistent frames from start frame %d, first start 100..102, gaps 1..2, chunk start 98..%d (length %d), "
                                               "window start 99..%d, window length 3..8 (realised)" % (lens, f0, 100 + span - 3, L, 100 + span),
                                        examples=[ex, dict(ex, ws=104, wl=6), dict(ex, w=104, ws=101, wl=8)]))
+    from harness.c04 import chunk_parents_by_content_fn, parsers_importable
+
+    if parsers_importable():
+        out.append(Obl("io_parser_chunk_parents_by_content", chunk_parents_by_content_fn(), dict(e=int, d=int, where=int, order=int),
+                       lambda e, d, where, order: 5 <= e and e <= (8 if quick else 12) and -1 <= d and d <= 1 and 0 <= where and where <= 4 and 0 <= order and order <= 1,
+                       budget=900, cost=60,
+                       desc="(shared with C04) chunks built by io.parser.seq_chunk_to_parent for the same window from two sequences that differ in one base: a feature built "
+                            "on each chunk spells that chunk's own bases, in either order - the chunk view never shows another object's sequence",
+                       bounds="chunk lengths 2^e-1..2^e+1 for e = 5..%d x 5 edit positions x 2 orders (closed by the solver)" % (8 if quick else 12),
+                       examples=[dict(e=7, d=1, where=2, order=0)]))
     cds_shapes = [((5,), None), ((6,), None), ((7,), None), ((3, 3), None), ((4, 5), None), ((2, 4), None), ((4, 5), "shift")]
     if not quick:
         cds_shapes += [((3, 4), None), ((5, 2), None), ((1, 3), None), ((3, 3, 3), None), ((4, 2, 3), None), ((2, 2, 2), "shift")]
